@@ -352,7 +352,7 @@ def native_replay(job, inputs):
         # harness + stubs; the library comes from the archive, except TUs the harness
         # #includes textually (static functions), which then shadow the archive member
         srcs = []
-    cc = ["cc", "-g", "-O0", "-DVERIF_NATIVE", "-DHARNESS=" + job.entry] + BASE_DEF + defs + BASE_INC + \
+    cc = ["cc", "-g", "-O0", "-DVERIF_NATIVE", "-DHARNESS=" + job.entry, "-DHAVE_CONFIG_H"] + defs + BASE_INC + \
         ["-I" + os.path.dirname(job.harness), "-fsanitize=address,undefined", job.harness,
          os.path.join(VERIF, "include", "verif_native.c"),
          os.path.join(VERIF, "stubs", "verif_err.c")] + list(srcs) + [lib, "-lm", "-lyaml", "-o", exe]
@@ -449,6 +449,9 @@ def run_property(prop, jobs, tier, level="proof", assumptions=(), trusted_base=(
         for ent in r["failed"]:
             if ent["status"] != "FAILURE":
                 # UNKNOWN only appears next to a FAILURE in the same run
+                continue
+            if (ent["description"] or "").startswith("infra:"):
+                infra.append("%s: %s" % (j.name, ent["description"]))
                 continue
             k = match_known(known, j.name, ent)
             if k:
